@@ -175,10 +175,11 @@ theorem mcInv_flagEval (hRE : ExpReg RE) {fe : Frontend} (h : MCInv RE E U fe) (
   · exact h.evalExh e' he' hold v hv
   · obtain ⟨a, ha, rfl⟩ := hv
     obtain ⟨_, hval⟩ := hRE.faithful e e' (hre e hein) he' hid
-    obtain ⟨a', hta', m, hm, hag⟩ := hc _ (hcomp (asts.map (·.val a)) ⟨a, ha, rfl⟩)
+    obtain ⟨a', hta', hag⟩ := hc _ (hcomp (asts.map (·.val a)) ⟨a, ha, rfl⟩)
+    obtain ⟨m, hm, hme⟩ := hag e hein (hre e hein) hvars
     refine ⟨m, hm, ?_⟩
     have h1 : e.val a = e.val a' := map_eq_at hta' hein
-    rw [← hval, hag e hein (hre e hein) hvars, ← h1, hval]
+    rw [← hval, hme, ← h1, hval]
 
 /-- the end of `batch_eval`: join what the cache and what the solver gave, flag when the answer is complete -/
 theorem mcBatchFinish (hRE : ExpReg RE) (asts : List Exp) (hre : ∀ e ∈ asts, RE e) (n : Nat) (extra : List Con)
@@ -235,8 +236,10 @@ theorem mcBatchFinish (hRE : ExpReg RE) (asts : List Exp) (hre : ∀ e ∈ asts,
     refine ⟨hok, hnonempty, ?_, h.set_fe _ (by rw [hf]) (by rw [hf]) (by rw [hf]) (by rw [hf]) (by rw [hf]) (by rw [hf])
       (by rw [hf]) (by rw [hf]) hmc' hsc', Keep.of_fe (by rw [hf]) (by rw [hf])⟩
     intro t ht
-    obtain ⟨a, hta, m, hm, hag⟩ := hcached t ht
-    exact ⟨a, hta, m, by rw [hf]; exact hm, fun e he hre' hv => hag e he hre' (by rw [hf] at hv; exact hv)⟩
+    obtain ⟨a, hta, hag⟩ := hcached t ht
+    refine ⟨a, hta, fun e he hre' hv => ?_⟩
+    obtain ⟨m, hm, hme⟩ := hag e he hre' (by rw [hf] at hv; exact hv)
+    exact ⟨m, by rw [hf]; exact hm, hme⟩
   · simp only [hflag, Bool.false_eq_true, ↓reduceIte, pure, M.pure]
     exact ⟨hok, hnonempty, hcached, h, Keep.refl U s2⟩
 
@@ -263,7 +266,7 @@ theorem mcBatchSlow_spec (hRE : ExpReg RE) {sup : Ops} (asts : List Exp) (hre : 
   have hrc : ∀ s2 : St, Keep U s s2 → CachedAll RE E s2.fe asts results := by
     intro s2 hk t ht
     obtain ⟨m, hm, _, rfl⟩ := (mem_allBatchSolutions E s.fe asts extra t).mp (hsub t ht)
-    exact ⟨m.complete E.dflt, rfl, m, hk.models ⟨_, h.mc.valid m hm⟩ m hm, fun _ _ _ _ => rfl⟩
+    exact ⟨m.complete E.dflt, rfl, fun _ _ _ _ => ⟨m, hk.models ⟨_, h.mc.valid m hm⟩ m hm, rfl⟩⟩
   -- the query passed down
   have hcons : ∀ a, Models (U ++ (if (!results.isEmpty) = true then blockAllCon asts results :: extra else extra)) a ↔
       Models (U ++ extra) a ∧ ∀ r ∈ results, asts.map (·.val a) ≠ r := by
@@ -389,7 +392,7 @@ theorem mc_batchEval_spec (hP : PickValid E) (hRE : ExpReg RE) {sup : Ops} (asts
         exact hne (List.length_eq_zero_iff.mp this)
     · intro t ht
       obtain ⟨m, hm, _, rfl⟩ := (mem_allBatchSolutions E s.fe asts extra t).mp (hsub2 t ht)
-      exact ⟨m.complete E.dflt, rfl, m, hm, fun _ _ _ _ => rfl⟩
+      exact ⟨m.complete E.dflt, rfl, fun _ _ _ _ => ⟨m, hm, rfl⟩⟩
   · -- the cache does not settle it
     have hslow : (chosen.length == n || (!chosen.isEmpty && extra.isEmpty && exhaustedOne s.fe asts)) = false := by
       simpa using hfast
@@ -426,8 +429,9 @@ theorem mc_eval_spec (hP : PickValid E) (hRE : ExpReg RE) {self sup : Ops} (e : 
     refine ⟨evalOk_of_tuples hc hok, by simpa using hne, ?_, hsi, hk⟩
     intro hvars v hv
     obtain ⟨t, ht, rfl⟩ := List.mem_map.mp hv
-    obtain ⟨a, rfl, m, hm, hag⟩ := hca t ht
-    exact ⟨m, hm, by simpa using hag e (by simp) he hvars⟩
+    obtain ⟨a, rfl, hag⟩ := hca t ht
+    obtain ⟨m, hm, hme⟩ := hag e (by simp) he hvars
+    exact ⟨m, hm, by simpa using hme⟩
 
 /-! ### `min` / `max` -/
 
